@@ -18,6 +18,8 @@ Template directives (lines starting with `//@`):
   //@ after-loop <n>           following lines are inserted after the closing brace of the n-th loop
   //@ fn-begin                 following lines go at the very start of the function body (structural anchor)
   //@ loop-begin <n> / loop-end <n>   following lines go at the start / end of the n-th loop's body (structural anchors)
+  //@ ghost-param <name: Ghost type>   append an erased (ghost) parameter to the parameter list (rule R10); call sites pass
+                               it through a `subst`
   //@ params <a> <b> ..        alpha-rename the non-self parameters, by position, to these names (rule R7)
   //@ locals <a> <b> ..        pinned names of the simple let/for/if-let bindings in order of first binding; a body whose
                                bindings differ only by name is alpha-renamed back to them (rule R7b)
@@ -335,6 +337,94 @@ def rule_r8_result_combinators(body, log, where):
     return body
 
 
+R9_DIRECTIONS = {}   # placeholder -> 'true' / 'false': direction of the n-th R9 scan of the function being extracted
+
+
+def rule_r9_iter_first(body, log, where):
+    R9_DIRECTIONS.clear()
+    """R9: `X.iter()[.rev()] (.map(F) | .skip_while(P) | .filter(P))* .next()`  ->  an index loop over X (backwards with
+       `.rev()`) that applies the stages to each element in order and stops at the first element that passes all of them
+       (std: lazy adapters; `skip_while(P)` followed by `next()` yields the first element for which P is false, `filter(P)` the
+       first for which it is true; `map(F)` applies F). Closures become `{ let <param> = <element>; <body> }`, a path `F`
+       becomes `F(<element>)` (`P(&<element>)` for predicates). Opt-in (`rules=R9`): Verus has no iterator adapters.
+       In the injected contract lines of the function the placeholder `$REV9_<n>` stands for the direction of the n-th scan
+       (`true` with `.rev()`), so that a contract can be stated for either direction and the postcondition decides."""
+    n9 = 0
+    search_from = 0
+    while True:
+        kind = rs.code_mask(body)
+        hit = None
+        for s_, e_, m in rs.find_code(body, kind, r'\.\s*iter\s*\(\s*\)', search_from, len(body)):
+            hit = (s_, e_); break
+        if hit is None:
+            break
+        s_, e_ = hit
+        pos = e_
+        stages = []
+        rev = False
+        end = None
+        while True:
+            m = re.match(r'\s*\.\s*(\w+)\s*\(', body[pos:])
+            if not m:
+                break
+            popen = pos + m.end() - 1
+            pclose = rs.match_close(body, kind, popen)
+            name = m.group(1)
+            arg = body[popen + 1:pclose].strip()
+            if name == 'rev' and arg == '' and not stages and not rev:
+                rev = True
+            elif name in ('map', 'skip_while', 'filter') and arg:
+                stages.append((name, arg))
+            elif name == 'next' and arg == '':
+                end = pclose + 1
+                break
+            else:
+                break
+            pos = pclose + 1
+        if end is None:
+            search_from = e_
+            continue
+        x_start = _receiver_start(body, kind, s_)
+        x = body[x_start:s_].strip()
+        n9 += 1
+        k = '__k9_%d' % n9
+        r = '__r9_%d' % n9
+
+        def apply(arg, elem, by_ref):
+            mc = re.match(r'\|\s*([A-Za-z_]\w*)\s*\|\s*(.*)$', arg, re.S)
+            if mc:
+                return '{ let %s = %s%s; %s }' % (mc.group(1), '&' if by_ref else '', elem, mc.group(2).strip())
+            if re.fullmatch(r'[\w:]+', arg):
+                return '%s(%s%s)' % (arg, '&' if by_ref else '', elem)
+            raise Undecided('rule R9: unsupported stage argument `%s` in %s' % (arg, where))
+
+        cur = '__x9_%d_0' % n9
+        code = ''
+        closers = ''
+        for j, (name, arg) in enumerate(stages):
+            if name == 'map':
+                nxt = '__x9_%d_%d' % (n9, j + 1)
+                code += 'let %s = %s; ' % (nxt, apply(arg, cur, False))
+                cur = nxt
+            elif name == 'skip_while':
+                code += 'if !(%s) { ' % apply(arg, cur, True)
+                closers += '} '
+            else:
+                code += 'if %s { ' % apply(arg, cur, True)
+                closers += '} '
+        code += '%s = Some(%s); break; ' % (r, cur) + closers
+        if rev:
+            head = 'let mut %s: usize = %s.len(); let mut %s = None; while %s > 0 { %s -= 1; let __x9_%d_0 = &%s[%s]; ' % (k, x, r, k, k, n9, x, k)
+        else:
+            head = 'let mut %s: usize = 0; let mut %s = None; while %s < %s.len() { let __x9_%d_0 = &%s[%s]; %s += 1; ' % (k, r, k, x, n9, x, k, k)
+        new = '{ ' + head + code + '} ' + r + ' }'
+        R9_DIRECTIONS['$REV9_%d' % n9] = 'true' if rev else 'false'
+        body = body[:x_start] + new + body[end:]
+        search_from = x_start + len(new)
+    log.hit('R9.iter_first', n9, where)
+    return body
+
+
 def rule_r5_mut_self(header, body, log, where):
     """`fn f(mut self, ..) { B }` -> `fn f(self, ..) { let mut self_ = self; B[self := self_] }`
        (Verus: "mut self" unsupported). Same moves, same mutations."""
@@ -627,6 +717,7 @@ class FnDirective:
         self.loop_begin = {}  # n -> lines inserted after the opening brace of the n-th loop body
         self.before_loop = {} # n -> lines inserted before the n-th loop statement
         self.fn_begin = []    # lines inserted right after the opening brace of the function body
+        self.ghost_params = []  # ghost (erased) parameters appended to the parameter list (rule R10)
 
 
 def parse_opts(rest):
@@ -684,6 +775,14 @@ def apply_fn(d, log, fnmap, out_lineno):
         header = header[:pc + 1] + m.group(1) + '(' + d.ret + ': ' + m.group(2).strip() + ')' + m.group(3)
     if d.params is not None:
         header, body = rule_r7_rename_params(header, body, d.params, log, where, d.spec)
+    if d.ghost_params:
+        hk = rs.code_mask(header)
+        po = _params_open(header, hk)
+        pc = rs.match_close(header, hk, po)
+        inner = header[po + 1:pc].rstrip()
+        sep = '' if inner == '' or inner.endswith(',') else ', '
+        header = header[:po + 1] + inner + sep + ', '.join(d.ghost_params) + header[pc:]
+        log.hit('R10.ghost_param', len(d.ghost_params), where)
     new_calls = []
     if d.calls is not None:
         new_calls = [c for c in call_names(body) if c not in d.calls]
@@ -699,6 +798,8 @@ def apply_fn(d, log, fnmap, out_lineno):
     body = rule_r3_macros(body, log, where, name)
     if 'R8' in d.opts.get('rules', ''):
         body = rule_r8_result_combinators(body, log, where)
+    if 'R9' in d.opts.get('rules', ''):
+        body = rule_r9_iter_first(body, log, where)
     if 'R4' not in d.norules:
         body = rule_r4_any_all(body, log, where)
     # collect insertions on the (rewritten) body, all computed against the same text
@@ -766,6 +867,11 @@ def apply_fn(d, log, fnmap, out_lineno):
         body = body[:a] + t + body[b:]
     pre = d.opts.get('pre', '').replace('~', ' ')
     text = (pre + ' ' if pre else '') + header + '\n' + '\n'.join(d.spec_lines) + ('\n' if d.spec_lines else '') + body + '\n'
+    if 'R9' in d.opts.get('rules', ''):
+        for ph, val in R9_DIRECTIONS.items():
+            text = text.replace(ph, val)
+        if '$REV9_' in text:
+            raise Undecided('lost anchor: an R9 scan named by the contract of %s is no longer there' % d.spec)
     nlines = text.count('\n')
     first_line = src.count('\n', 0, it.sig_start) + 1
     fnmap.append({'label': label, 'fn': name, 'source': file, 'source_line': first_line,
@@ -1006,6 +1112,9 @@ def expand(template_path, out_path, extra_tail=''):
                     elif c2.startswith('sig '):
                         old, new = c2[4:].split('=>')
                         d.sigsubs.append((old.strip(), new.strip()))
+                        cur = None
+                    elif c2.startswith('ghost-param '):
+                        d.ghost_params.append(c2[len('ghost-param '):].strip())
                         cur = None
                     elif c2 == 'spec':
                         cur = d.spec_lines
